@@ -242,7 +242,7 @@ func H_C07_Pipeline(v *verifrt.T) {
 			Validator:    recv.validate,
 			Logger:       &vSentLog{},
 			Tagger:       tagger,
-			CacheAge:     time.Hour, ScanDelay: 0, Threads: 1, PayloadSize: 8,
+			CacheAge:     time.Hour, ScanDelay: 0, Threads: v.Param("THREADS", 1), PayloadSize: 8,
 			StatInterval: time.Hour, PollDelay: time.Second, PollInterval: time.Second, PollAttempts: 3, PollMaxCount: 10,
 			Tags: []*FileTag{{Name: "", InOrder: true, Delete: del}}, ErrorBackoff: 1,
 		}}
